@@ -22,6 +22,7 @@ from vlib import log  # noqa: E402
 class Ctx:
     def __init__(self, pid, tier, seed):
         self.pid, self.tier, self.seed = pid, tier, seed
+        vlib.CURRENT_PID = pid
         self.workdir = vlib.ensure_dir(os.path.join(vlib.WORK, "%s-%s-%d" % (pid, tier, os.getpid())))
         vlib.ensure_dir(os.path.join(vlib.COQ, "gen"))
         self.t0 = time.time()
